@@ -939,7 +939,7 @@ pub fn suite_threads(out: &mut Out, tier: &str, rng: &mut Rng) {
                 }
             }
         }
-        out.emit(json!({"op": "threads", "n": 16, "calls": calls}));
+        out.emit(json!({"op": "threads", "n": 16, "rounds": 2, "calls": calls}));
     }
 }
 
@@ -1091,4 +1091,41 @@ pub fn suite_decode_big(out: &mut Out, tier: &str, rng: &mut Rng) {
     out.emit(json!({"op": "decode_avps", "in": bytes_json(&list), "rdr": "slice"}));
     list.extend(enc_record(1, 1023, 0, 7, &rng.bytes(100)));
     out.emit(json!({"op": "decode_avps", "in": bytes_json(&list), "rdr": "slice"}));
+}
+
+
+/// C19: one thread, the same calls repeated in different orders (results must not depend on history)
+pub fn suite_history(out: &mut Out, tier: &str, rng: &mut Rng) {
+    for _ in 0..counts(tier, 2, 30) {
+        let mut calls = Vec::new();
+        for j in 0..120 {
+            match j % 6 {
+                0 | 1 => {
+                    let (b, opts) = noncanonical_input(rng);
+                    let b = if rng.chance(1, 3) { mutate(rng, &b, &[]) } else { b };
+                    calls.push(json!({"op": "decode", "in": bytes_json(&b), "opts": opts, "entry": "validate", "rdr": "slice", "id": 0}));
+                }
+                2 => {
+                    let (kind, v) = gen_any_value(rng);
+                    calls.push(json!({"op": "encode", "kind": kind, "v": v, "prefix": [], "wr": "vec", "id": 0}));
+                }
+                3 => {
+                    let mut recs = random_record(rng);
+                    recs.extend(random_record(rng));
+                    calls.push(json!({"op": "decode_avps", "in": bytes_json(&recs), "rdr": "slice", "id": 0}));
+                }
+                4 => {
+                    let ki = rng.below(KINDS.len() as u64) as usize;
+                    let lp = rng.rbytes(0, 12);
+                    calls.push(json!({"op": "hide_reveal", "v": gen_avp_kind(rng, ki, 10), "secret": bytes_json(&rng.rbytes(0, 8)),
+                                      "rv": bytes_json(&rng.bytes(4)), "lp": bytes_json(&lp), "ap": bytes_json(&rng.bytes(16)), "id": 0}));
+                }
+                _ => {
+                    let m = gen_control(rng, 4, 20);
+                    calls.push(json!({"op": "roundtrip", "kind": "msg", "v": m, "id": 0}));
+                }
+            }
+        }
+        out.emit(json!({"op": "threads", "n": 1, "rounds": 3, "calls": calls}));
+    }
 }
